@@ -234,6 +234,21 @@ func (br *BlockReader) SkipNext() (*BlockMetadata, error) {
 		if finalOffset > br.readerSize {
 			return nil, io.ErrUnexpectedEOF
 		}
+		if blockSize > 0 {
+			// The size a seeker reports may be a declared one (the payload reader of a CARv2
+			// Reader ends where the header says it does): make sure the last byte of the block
+			// is really there before reporting the block as skipped.
+			if _, err := brs.Seek(-1, io.SeekCurrent); err != nil {
+				return nil, err
+			}
+			var last [1]byte
+			if _, err := io.ReadFull(brs, last[:]); err != nil {
+				if err == io.EOF {
+					err = io.ErrUnexpectedEOF
+				}
+				return nil, err
+			}
+		}
 	} else { // just a reader, we need to slurp the block bytes
 		readCnt, err := io.CopyN(io.Discard, br.r, int64(blockSize))
 		if err != nil {
